@@ -424,7 +424,8 @@ def hsq_case(rng, mode):
     ql = ql[:10]
     if rng.chance(1, 2):                          # the connected name not always first
         ql = ql[1:] + ql[:1]
-    flags = rng.choice("nnv") + rng.choice("sft") + (("m") if rng.chance(1, 3) else "")
+    flags = rng.choice("nnv") + rng.choice("sft") + (("m") if rng.chance(1, 3) else "") + \
+        (("e") if rng.chance(1, 3) else "")       # e: dirty OpenSSL error queue before the queries
     return [" ".join(["hsq", mode, flags] + ents + ["q:" + vf.hexs(q) for q in ql] + [words[-1]])]
 
 
@@ -597,7 +598,7 @@ def xpairs(ck, hcmd, dcmd, mode, kind, alpha, lc, ln, lo, hi, pieces=32, workers
 
 def nontrivial(case):
     """a case is non-trivial when the certificate carries at least one name"""
-    return len(case[0].split()) > 3 or case[0].startswith("pton")
+    return len(case[-1].split()) > 3 or case[0].startswith("pton")
 
 
 def run(ck):
@@ -624,7 +625,10 @@ def run(ck):
                       "against CN-only certificates, mixed-case DNS names) through tls_connect_socket, tls_connect_fds "
                       "and tls_connect_servername (loopback TCP); a peer-query family (handshake with verify_name on or OFF, "
                       "optionally mutual, then tls_peer_cert_contains_name on the live client / server connection for the "
-                      "connected name, names derived from the certificate, case variants, unrelated names); plus the "
+                      "connected name, names derived from the certificate, case variants, unrelated names); a dirty-error-queue "
+                      "dimension (op noise / hsq flag e: an unrelated failing libssl call leaves entries in the OpenSSL "
+                      "error queue before the verdict - every 4th cert case, half of the CN-only ones, a third of the peer "
+                      "queries); plus the "
                       "exhaustive set of (cert string, name) pairs over {a,b,*,.,-} (range-hash, as dNSName and as "
                       "CN); every case is run in mode g (platform inet_pton) and mode c (usual/socket_pton.c); "
                       "distinct_nontrivial = distinct op lines whose certificate carries at least one name (the pairs of "
@@ -659,11 +663,19 @@ def run(ck):
     if not ck.proof_ok:
         n *= 4
     cases_g = [rand_case(rng, "cert", "g") if i % 5 else long_case(rng, "cert", "g") for i in range(n)]
-    cases_c = [[c[0].replace("cert g ", "cert c ", 1)] for c in cases_g[: n // 2]]
+    # dirty error queue (frame condition): an unrelated failing library call before the verdict,
+    # for every 4th case and for every CN-only (no SAN) certificate with probability 1/2
+    def noisy(c):
+        cn_only = " san-" not in c[0] and " cn:" in c[0]
+        if rng.chance(1, 4) or (cn_only and rng.chance(1, 2)):
+            return ["noise %d" % (1 + rng.below(3))] + c
+        return c
+    cases_g = [noisy(c) for c in cases_g]
+    cases_c = [[l.replace("cert g ", "cert c ", 1) for l in c] for c in cases_g[: n // 2]]
     nfail += par_compare(ck, hs["g"], dcmd, cases_g, "random-g", nontrivial=nontrivial)
     nfail += par_compare(ck, hs["c"], dcmd, cases_c, "random-c", nontrivial=nontrivial)
     for c in cases_g[:3]:
-        ck.sample(c[0])
+        ck.sample(" ; ".join(c))
 
     mark("random")
     # exhaustive pairs (range hash)
